@@ -11,10 +11,11 @@ from harness.core import Component, Ctx, run_component, run_driver
 
 RULE = ("selection/yield histories over agent-id alphabets with order traps (shared prefixes, case, digits, empty id, "
         "non-ASCII, duplicates), allowances {missing,0,1,2,3,5,-1,True}, aging {missing,0,<0,1,7,10,200}, clock advances "
-        "{0,1,aging-1,aging,3*aging,-aging,big} (backwards included), both policies, rotation on/off per tick; a stream of "
+        "{0,1,aging-1,aging,3*aging,-aging,big} (backwards included), both policies, rotation on/off per tick; every ctx clock shape _now_ms accepts (callable int/float/str/bool, raising, non-numeric, None, "
+        "int/float FIELD, no attribute, ctx None) with each history run twice under two scripted process clocks and once against the documented clock; a stream of "
         "tick-only histories from init_scheduler_state (bound monitors apply), a mixed stream of free next/yield/rot ops, "
         "and a malformed stream (hand-made states with missing keys / counters above the allowance, bad config values); "
-        "stage HISTORIES: 2-4 real t1_propagate / t2_semantic / run_turn calls on one world in one process with the process-global stage caches left warm, slice budgets absent/loose/tight/0 per call, caches on and off, each call checked against its clamp and against the same call with the stage cache off; "
+        "stage HISTORIES: 2-4 real t1_propagate / t2_semantic / run_turn calls on one world in one process with the process-global stage caches left warm, slice budgets absent/loose/tight/0 per call, caches on and off, the ctx fresh per turn or one long-lived object (cfg edited in place / replaced) judged against the budgets in force that turn, each call checked against its clamp and against the same call with the stage cache off; "
         "exhaustive DFS over all clock-advance histories of the real code for small scopes, compared with the model by "
         "leaf count, rolling hash of every (agent, reason) and maximal wait; budget/consumed maps boundary-biased around "
         "equality; one seeded PRNG per component; a case is non-trivial when it hits a non-default branch tag; distinct "
@@ -126,6 +127,97 @@ class Clock:
         return self.t
 
 
+# every shape of "clock on the ctx" that `_now_ms` accepts; the documented value is int(ctx.now_ms()) when that
+# works and the constant 0 otherwise (no attribute, non-callable field, raising / non-numeric callable, ctx None)
+CLOCK_SHAPES = ["callable_float", "callable_str", "callable_bool", "callable_bad", "callable_none", "callable_nan",
+                "raises", "field_int", "field_float", "missing", "none_ctx", "attr_raises"]
+
+
+def eff_clock(shape: str, t: int) -> int:
+    """explicit re-statement of the documented clock for a ctx of this shape scripted to time t"""
+    if shape in ("callable", "callable_str"):
+        return t
+    if shape == "callable_float":
+        return math.trunc(t + 0.75)
+    if shape == "callable_bool":
+        return 1 if t % 2 else 0
+    return 0
+
+
+class _Holder:
+    def __init__(self):
+        self.t = 0
+
+
+class ShapeCtx:
+    def __init__(self, shape: str, h: _Holder):
+        self._shape, self._h = shape, h
+
+    def __getattr__(self, name):
+        if name != "now_ms":
+            raise AttributeError(name)
+        sh, h = self._shape, self._h
+        if sh == "callable":
+            return lambda: h.t
+        if sh == "callable_float":
+            return lambda: h.t + 0.75
+        if sh == "callable_str":
+            return lambda: " %d " % h.t
+        if sh == "callable_bool":
+            return lambda: bool(h.t % 2)
+        if sh == "callable_bad":
+            return lambda: "soon"
+        if sh == "callable_none":
+            return lambda: None
+        if sh == "callable_nan":
+            return lambda: float("nan")
+        if sh == "raises":
+            def boom():
+                raise RuntimeError("clock unavailable")
+            return boom
+        if sh == "field_int":
+            return h.t            # the shape the orchestrator accepts for ctx.now_ms
+        if sh == "field_float":
+            return h.t + 0.5
+        if sh == "attr_raises":
+            raise RuntimeError("no clock on this ctx")
+        raise AttributeError(name)
+
+
+def make_ctx(shape: str):
+    h = _Holder()
+    if shape == "none_ctx":
+        return h, None
+    if shape == "missing":
+        return h, object()
+    return h, ShapeCtx(shape, h)
+
+
+class WallClock:
+    """process clocks scripted to `base` seconds (advancing 1 ms per reading) while the real code runs"""
+    NAMES = ["time", "time_ns", "monotonic", "monotonic_ns", "perf_counter", "perf_counter_ns"]
+
+    def __init__(self, base: float):
+        self.base, self.n, self.saved = base, 0, {}
+
+    def _sec(self):
+        self.n += 1
+        return self.base + self.n / 1000.0
+
+    def __enter__(self):
+        import time as _t
+        for nm in self.NAMES:
+            self.saved[nm] = getattr(_t, nm)
+            setattr(_t, nm, (lambda: int(self._sec() * 1e9)) if nm.endswith("_ns") else self._sec)
+        return self
+
+    def __exit__(self, *a):
+        import time as _t
+        for nm, f in self.saved.items():
+            setattr(_t, nm, f)
+        return False
+
+
 def start_state(case: dict) -> dict:
     from clematis.engine.scheduler import init_scheduler_state
     if "state" in case:
@@ -169,10 +261,13 @@ class SchedHist(Component):
     def gen(self, rng: random.Random, i: int) -> dict:
         r = rng.random()
         if r < 0.70:
-            return self._gen_valid(rng)
-        if r < 0.88:
-            return self._gen_mixed(rng)
-        return self._gen_malformed(rng)
+            case = self._gen_valid(rng)
+        elif r < 0.88:
+            case = self._gen_mixed(rng)
+        else:
+            case = self._gen_malformed(rng)
+        case["clock"] = rng.choice(CLOCK_SHAPES) if rng.random() < 0.3 else "callable"
+        return case
 
     def _ids(self, rng) -> List[str]:
         al = rng.choice(ALPHABETS)
@@ -257,9 +352,35 @@ class SchedHist(Component):
 
     # ---- implementation ----------------------------------------------------
     def impl(self, case: dict) -> Any:
+        shape = case.get("clock", "callable")
+        # the same history under two different process clocks: selection must not depend on wall time
+        with WallClock(1.7e9):
+            a = self._run(case, shape, False)
+        with WallClock(2.9e9 + 12345.678):
+            b = self._run(case, shape, False)
+        a["wall_ok"] = (a["out"] == b["out"])
+        a["wall_diff"] = "" if a["wall_ok"] else next((f"op {i}: {x} vs {y}" for i, (x, y) in enumerate(zip(a["out"], b["out"])) if x != y), "length")[:300]
+        if shape != "callable":
+            # ... and a ctx without a usable clock behaves like a clock that reads the documented value
+            with WallClock(2.1e9):
+                c = self._run(case, "callable", True, eff_shape=shape)
+            a["doc_ok"] = (a["out"] == c["out"])
+            a["doc_diff"] = "" if a["doc_ok"] else next((f"op {i}: {x} vs documented {y}" for i, (x, y) in enumerate(zip(a["out"], c["out"])) if x != y), "length")[:300]
+        return a
+
+    def _run(self, case: dict, shape: str, documented: bool, eff_shape: str = "callable") -> Any:
         from clematis.engine.scheduler import next_turn, on_yield
-        clk = Clock()
+        h, ctxobj = make_ctx(shape)
+
+        class _Set:
+            """`clk.t = x` scripts the clock; in the documented re-run x is first mapped by eff_clock"""
+            def __setattr__(self_, k, v):
+                h.t = eff_clock(eff_shape, v) if documented else v
+        clk_set = _Set()
         st = start_state(case)
+        return self._run_ops(case, st, clk_set, ctxobj, next_turn, on_yield)
+
+    def _run_ops(self, case, st, clk_set, clk, next_turn, on_yield):
         out = [{"s": obs_state(st)}]
         picks = []   # (state-before (encoded), a, r) for the Lean Pick monitor
         det_ok = True
@@ -268,7 +389,7 @@ class SchedHist(Component):
             if tag in ("next", "tick"):
                 fq = op[1]
                 fair = fairness_of(op[2], case["mct"])
-                clk.t = op[3]
+                clk_set.t = op[3]
                 before = copy.deepcopy(st)
                 try:
                     a, budgets, r = next_turn(clk, st, "fair_queue" if fq else "round_robin", fair)
@@ -285,13 +406,13 @@ class SchedHist(Component):
                 if tag == "next":
                     out.append({"a": cp(a), "r": r})
                 else:
-                    clk.t = op[4]
+                    clk_set.t = op[4]
                     on_yield(clk, st, a, {}, "", fair, reset=(r == "RESET_CONSEC"))
                     if op[5]:
                         rotate(st["queue"], a)
                     out.append({"a": cp(a), "r": r, "s": obs_state(st)})
             elif tag == "yield":
-                clk.t = op[2]
+                clk_set.t = op[2]
                 on_yield(clk, st, op[1], {}, "", {}, reset=op[3])
                 out.append({"s": obs_state(st)})
             elif tag == "rot":
@@ -308,13 +429,14 @@ class SchedHist(Component):
         else:
             rq["init"] = {"ids": [cp(a) for a in case["init"]["ids"]], "now": case["init"]["now"]}
         ops = []
+        sh = case.get("clock", "callable")
         for op in case["ops"]:
             if op[0] == "next":
-                ops.append(["next", op[1], enc_cfg(op[2]), op[3]])
+                ops.append(["next", op[1], enc_cfg(op[2]), eff_clock(sh, op[3])])
             elif op[0] == "tick":
-                ops.append(["tick", op[1], enc_cfg(op[2]), op[3], op[4], op[5]])
+                ops.append(["tick", op[1], enc_cfg(op[2]), eff_clock(sh, op[3]), eff_clock(sh, op[4]), op[5]])
             elif op[0] == "yield":
-                ops.append(["yield", cp(op[1]), op[2], op[3]])
+                ops.append(["yield", cp(op[1]), eff_clock(sh, op[2]), op[3]])
             else:
                 ops.append(["rot", cp(op[1])])
         rq["ops"] = ops
@@ -367,7 +489,12 @@ class SchedHist(Component):
         return rq
 
     def monitors(self, case, impl_out):
-        res = [("deterministic_pure", impl_out["det_ok"], "next_turn mutated its state or answered differently on a copy")]
+        res = [("deterministic_pure", impl_out["det_ok"], "next_turn mutated its state or answered differently on a copy"),
+               ("independent_of_process_clock", impl_out.get("wall_ok", True),
+                f"ctx clock shape {case.get('clock', 'callable')!r}: same history, two process wall clocks, different picks/state: {impl_out.get('wall_diff')}")]
+        if "doc_ok" in impl_out:
+            res.append(("clockless_ctx_reads_documented_clock", impl_out["doc_ok"],
+                        f"ctx clock shape {case.get('clock')!r} must behave as the documented clock (int(now_ms()) or 0): {impl_out.get('doc_diff')}"))
         for p in impl_out["picks"]:
             q = p["state"]["queue"]
             if q:
@@ -399,7 +526,7 @@ class SchedHist(Component):
         return res
 
     def tags(self, case, impl_out):
-        t = {case.get("kind", "corpus")}
+        t = {case.get("kind", "corpus"), "clock=" + case.get("clock", "callable")}
         outs = impl_out["out"]
         if any("raised" in o for o in outs):
             t.add("raised")
